@@ -1076,7 +1076,7 @@ def theorems_with_axioms(ck: Ck, props_file: str = 'Props/C05.v'):
     def finish() -> None:
         if th is not None:
             th.join()
-        if not box or any(rc != 0 for rc, _ in box[0][2]):
+        if not box or any(rc != 0 for rc, _ in box[0][2]):      # (a failed fast path has already fallen back to the detailed pass)
             first = err[:] + ([out[-300:] for rc, out in box[0][2] if rc != 0] if box else [])
             try:
                 box[:] = [_theorems_job(ck, props_file, 1)]
@@ -1092,12 +1092,62 @@ def theorems_with_axioms(ck: Ck, props_file: str = 'Props/C05.v'):
     return finish
 
 
+# statements of Props/C05.v that go through Flocq's real-number layer (the four classical axioms of Coq's Reals); every other
+# statement is expected to be closed under the global context.  Only a hint for the fast path below: if it is wrong in
+# either direction the per-statement pass runs and reports what Print Assumptions really says.
+REALS_THEOREMS = {'c05_norm360_range', 'c05_single_mod_closed', 'c05_single_mod_refuted', 'c05_angle_range_invariant', 'c05_single_site_refuted',
+                  'c05_double360_id', 'c05_double360_idempotent', 'c05_double360_of_360', 'c05_within_5e7_R', 'c05_float_parse_error',
+                  'c05_float_parse_exact', 'c05_copy_value_equal_angles', 'c05_double360_sub', 'c05_angle_component_roundtrip',
+                  'c05_angle_text_roundtrip', 'c05_vec_text_roundtrip'}
+ALLOWED_AXIOMS = {'ClassicalDedekindReals.sig_forall_dec', 'ClassicalDedekindReals.sig_not_dec', 'FunctionalExtensionality.functional_extensionality_dep',
+                  'Classical_Prop.classic'}
+
+
+def _assumption_blocks(out: str) -> list[list[str]]:
+    blocks: list[list[str]] = []
+    for line in out.splitlines():
+        if line.startswith('Closed under the global context'):
+            blocks.append([])
+        elif line.startswith('Axioms:'):
+            blocks.append([])
+        elif blocks and line and not line[0].isspace():
+            m = re.match(r"([A-Za-z_][A-Za-z0-9_.']*)", line)
+            if m:
+                blocks[-1].append(m.group(1))
+    return blocks
+
+
 def _theorems_job(ck: Ck, props_file: str, workers: int = 4):
-    """Print Assumptions walks the whole dependency cone again for every statement (seconds each below Flocq/Reals):
-    the statements are dealt round-robin to four coqc processes and the blocks are put back in source order."""
+    """Print Assumptions walks the whole dependency cone again for every statement (seconds each below Flocq/Reals).
+    Fast path: two passes over TUPLES of statements - the group expected to be closed must be closed as a whole (then
+    every member is), the group that uses Flocq's reals must depend on nothing but the four Reals axioms (then no
+    member does).  If either expectation fails, or a statement is in neither reading, the exact per-statement pass
+    runs (dealt round-robin to four coqc processes, blocks put back in source order)."""
     from concurrent.futures import ThreadPoolExecutor
     from harness.common import ROCQ
     names = re.findall(r'^\s*(?:Theorem|Lemma|Corollary)\s+([A-Za-z0-9_\']+)', (ROCQ / props_file).read_text(), re.M)
+    closed = [n for n in names if n not in REALS_THEOREMS]
+    reals = [n for n in names if n in REALS_THEOREMS]
+
+    def group(tag: str, members: list[str]):
+        if not members:
+            return 0, 'Closed under the global context\n'
+        body = f'Require Import SV.Props.C05.\nDefinition c05_group_{tag} := ({", ".join(members)}).\nPrint Assumptions c05_group_{tag}.\n'
+        try:
+            return ck.coq_scratch(body, f'assumptions_group_{tag}')
+        except Exception as e:          # noqa: BLE001
+            return 1, repr(e)
+    if workers > 1:
+        with ThreadPoolExecutor(max_workers=2) as ex:
+            (rc1, o1), (rc2, o2) = list(ex.map(lambda a: group(*a), [('closed', closed), ('reals', reals)]))
+    else:
+        (rc1, o1), (rc2, o2) = group('closed', closed), group('reals', reals)
+    if rc1 == 0 and rc2 == 0:
+        b1, b2 = _assumption_blocks(o1), _assumption_blocks(o2)
+        if len(b1) == 1 and len(b2) == 1 and not b1[0] and set(b2[0]) <= ALLOWED_AXIOMS:
+            # one part per group, in the format of the detailed pass: every member gets the verdict of its group
+            return names, [closed, reals], [(0, ''.join('Closed under the global context\n' for _ in closed)),
+                                            (0, ''.join('Axioms:\n' + '\n'.join(b2[0]) + '\n' for _ in reals))], 'grouped'
     parts = [names[i::4] for i in range(4)]
 
     def one(i: int):
@@ -1111,10 +1161,10 @@ def _theorems_job(ck: Ck, props_file: str, workers: int = 4):
     else:
         with ThreadPoolExecutor(max_workers=workers) as ex:
             res = list(ex.map(one, range(4)))
-    return names, parts, res
+    return names, parts, res, 'per statement'
 
 
-def _theorems_record(ck: Ck, props_file: str, names: list[str], parts: list[list[str]], res: list[tuple[int, str]]) -> None:
+def _theorems_record(ck: Ck, props_file: str, names: list[str], parts: list[list[str]], res: list[tuple[int, str]], how: str = 'per statement') -> None:
     """Same job as Ck.theorems() - one `theorem:<name>` obligation per statement of the Props file with its Print
     Assumptions result - with a parser that also understands axioms whose type is printed on the following line (the
     Reals axioms are)."""
@@ -1124,29 +1174,23 @@ def _theorems_record(ck: Ck, props_file: str, names: list[str], parts: list[list
             ck.obligation(f'assumptions:{props_file}', False, out[-2000:])
             ck.tie_broken.append(f'Print Assumptions failed for {props_file}')
             return
-        blocks: list[list[str]] = []
-        for line in out.splitlines():
-            if line.startswith('Closed under the global context'):
-                blocks.append([])
-            elif line.startswith('Axioms:'):
-                blocks.append([])
-            elif blocks and line and not line[0].isspace():
-                m = re.match(r"([A-Za-z_][A-Za-z0-9_.']*)", line)
-                if m:
-                    blocks[-1].append(m.group(1))
+        blocks = _assumption_blocks(out)
         if len(blocks) != len(part):
             ck.obligation(f'assumptions:{props_file}', False, f'{len(part)} statements but {len(blocks)} Print Assumptions blocks')
             ck.tie_broken.append(f'Print Assumptions output not understood for {props_file}')
             return
         by_name.update(zip(part, blocks))
     blocks = [by_name[n] for n in names]
-    allowed = {'ClassicalDedekindReals.sig_forall_dec', 'ClassicalDedekindReals.sig_not_dec', 'FunctionalExtensionality.functional_extensionality_dep',
-               'Classical_Prop.classic'}
+    ck.extra['print_assumptions_mode'] = how
     for n, b in zip(names, blocks):
         ck.axioms[n] = b
-        extra = [a for a in b if a not in allowed]
-        ck.obligation(f'theorem:{n}', not extra, 'Qed; axioms: ' + ('none (closed under the global context)' if not b else ', '.join(b))
-                      + (f' -- NOT ALLOWED: {extra}' if extra else ''))
+        extra = [a for a in b if a not in ALLOWED_AXIOMS]
+        if how == 'grouped':
+            what = 'none (closed under the global context; checked on the tuple of all such statements)' if not b else \
+                'no other than ' + ', '.join(b) + ' (Print Assumptions of the tuple of the statements that use Flocq reals)'
+        else:
+            what = 'none (closed under the global context)' if not b else ', '.join(b)
+        ck.obligation(f'theorem:{n}', not extra, 'Qed; axioms: ' + what + (f' -- NOT ALLOWED: {extra}' if extra else ''))
 
 
 # ------------------------------------------------------------------------------------------------ main
